@@ -19,7 +19,7 @@ VERIFICATION_MSGS = (
     'possible bit shift underflow/overflow', 'unreachable', 'could not prove termination',
     'cannot show invariant holds', 'failed precondition', 'cannot prove',
     'assert_by', 'may be reachable', 'possible truncation', 'recommendation not met',
-    'has been dropped', 'index out of bounds', 'loop invariant',
+    'has been dropped', 'index out of bounds', 'loop invariant', 'unable to prove', 'not satisfied', 'might fail', 'possible',
 )
 RESOURCE_MSGS = ('rlimit', 'resource limit', 'timeout', 'timed out', 'canceled')
 
@@ -250,11 +250,11 @@ def run_unit(unit_path, kf_on=True, vacuity=False, extra_args=(), timeout=900, k
                 if k >= 0 and lines[k].kind == 'real' and lines[k].item == f.item:
                     f.src = list(lines[k].src)
             # untagged failures inside a real item: automatic obligations on real lines
-            if not f.tags and f.item is not None:
-                P = lines[f.primary[0] - 1]
-                if P.kind == 'real' and f.kind == 'verification':
-                    f.tags.update(unit.items[f.item].auto)
-                    f.labels.append('auto')
+            if not f.tags and f.item is not None and f.kind == 'verification':
+                # automatic obligations on real lines, untagged loop invariants / asserts / decreases:
+                # they serve the item's declared properties (//@auto)
+                f.tags.update(unit.items[f.item].auto)
+                f.labels.append('auto')
             res.failures.append(f)
         if vacuity:
             probes = [i for i, l in enumerate(lines) if l.label == 'vac']
